@@ -65,6 +65,15 @@ pub fn step(s: U, b: u8) -> (U, bool) {
     )
 }
 
+/// Bytes for which the statement leaves the state change open: a byte >= 0x80
+/// that can neither continue the pending sequence nor start a new one arrives in
+/// the middle of a sequence.  It is dropped in any case; whether the pending
+/// sequence is abandoned (what `step` does) or kept is not specified, so the
+/// oracles accept both successor states.
+pub fn open_case(s: U, b: u8) -> bool {
+    s.remaining > 0 && !(b >= s.lo && b <= s.hi) && b >= 0x80 && lead_total(b) == 0
+}
+
 /// Abstraction of the concrete accumulator fields (meaningful under `acc_inv`).
 pub fn alpha(buf: [u8; 4], expected: u8, partial: u8) -> U {
     if expected == 0 {
